@@ -52,6 +52,7 @@ void check_C09(Src &s, Ctx &ctx) {
     SpecOpts so; so.nonnested = false; so.custom = false; so.conformal = false; so.min_outs = 1; so.max_outs = 3; so.cap = cfg().tier ? 90 : 60;
     GridState base; base.cap = so.cap;
     base.spec = decode_spec(s, so); base.vm.decode(s);
+    if (s.n >= 3 && (s.p[s.n - 1] % 8) == 5) { base.vm.degenerate = 1 + (s.p[s.n - 2] % 3); ctx.label("model:degenerate"); }   // one case in eight: constant / affine / one-active-direction model (coefficients vanish exactly)
     if (base.spec.depth > 3) base.spec.depth = 3;
     make_grid(base.g, base.spec, so.cap);
     int d = base.spec.dims;
